@@ -387,6 +387,33 @@ func (e *Env) denyTags(typ, rel string) string {
 	return ""
 }
 
+// FiredTotal is the number of injected faults fired so far in this run.
+func (e *Env) FiredTotal() int {
+	n := 0
+	for _, v := range e.DS.Fired() {
+		n += v
+	}
+	return n
+}
+
+// FaultTag attributes a definite answer obtained while faults are injected: if a fault fired during
+// the request, the request is issued once more with fault injection switched off; a different
+// definite answer means the fault changed the answer (" fault_changed_answer" — no recorded
+// fault-free finding may claim such a violation), the same answer means it did not.
+func (e *Env) FaultTag(firedBefore int, first bool, reissue func() (bool, error)) string {
+	if e.FiredTotal() == firedBefore {
+		return ""
+	}
+	cfg := dsConfig(e.Sc)
+	e.DS.SetFaults(0, 0)
+	again, err := reissue()
+	e.DS.SetFaults(cfg.Faults, cfg.FaultRate)
+	if err == nil && again != first {
+		return " fault_changed_answer"
+	}
+	return " same_answer_without_faults"
+}
+
 // grantTags: the known "loses a tuple" defects (F1, F10) turn into wrongly GRANTED access when the
 // lost membership sits under an exclusion's subtrahend.
 func (e *Env) grantTags(st *rm.State, rq gen.Request) string {
